@@ -212,6 +212,32 @@ pub fn c08(c: &mut Ctx, b: &Budget) {
         }
         let orig = match c.env(&e) { Some(x) => x, None => { c.end(); continue; } };
         observe(c, &e);
+        // the Encrypt action with a target set that names an element together with elements beneath it (e.g. every digest): the
+        // topmost hit is encrypted as it stands, and decrypting it gives back exactly that element
+        {
+            let host_subject = gen_leaf(c, &cfg); let pr = gen_leaf(c, &cfg);
+            let asr = c.assign(&format!("assertion {} {}", pr, e));
+            let host = c.assign(&format!("add {} {}", host_subject, asr));
+            let els: Vec<String> = elements(&orig).iter().map(|(p, _)| p.clone()).collect();
+            let mut ts = vec![c.assign(&format!("at {} .", e))];
+            for p in els.iter().skip(1) { if c.rng.chance(2, 3) { ts.push(c.assign(&format!("at {} {}", e, p))); } }
+            for (mode, tlist) in [("rem", ts.join(",")), ("rev", format!("{},{},{}", host, asr, host_subject))] {
+                let x = c.assign(&format!("elide_set {} {} encrypt:{} {}", host, mode, KEY1, tlist));
+                if let Some(xe) = c.env(&x) {
+                    let obj = c.assign(&format!("at {} a0/o", x));
+                    if c.env(&obj).map(|o| o.is_encrypted()).unwrap_or(false) {
+                        let d = c.assign(&format!("decrypt_subject {} {}", obj, KEY1));
+                        c.obs(&format!("eq {} {}", e, d));
+                        if !orig.is_obscured() || orig.is_compressed() {
+                            match c.env(&d) { Some(de) => c.check("action-encrypted-roundtrip", de.is_identical_to(&orig) && bytes_of(&de) == bytes_of(&orig), "decrypt-roundtrip", || format!("element {} encrypted by the Encrypt action ({} mode, nested targets) decrypts to {}", shape(&orig), mode, shape(&de))),
+                                None => { let v = c.val(&d).show(); c.check("action-encrypted-roundtrip", false, "decrypt-roundtrip", || v) } }
+                        }
+                        c.count("branch:action-encrypt-nested-targets");
+                    }
+                    let _ = xe;
+                }
+            }
+        }
         let nonce = hex::encode(c.rng.bytes(12));
         let enc = c.assign(&format!("encrypt_subject {} {} {}", e, KEY1, nonce));
         if let Some(x) = c.env(&enc) {
